@@ -6,7 +6,7 @@
                                                    byte array per handle, spec_stat, spec_children)
                     L <id>#<k> <result>            the model of today's code (legacy = true); only when
                                                    C14_LEGACY is set (tools/c14_legacy.sh); not read by ./check
-                    V <id> <digest>                Archive.digest of the M results (vm_compute cross-check) *)
+                    V <id> <adigest>                Archive.adigest of the M results (vm_compute cross-check) *)
 open Model
 open Driver_common
 
@@ -145,7 +145,7 @@ let run_arc toks =
     if legacy_too then
       List.iteri (fun i (o, r) -> Printf.printf "L %s#%d %s\n" id i (canon14 kind o r)) (List.combine ops (run true));
     if List.for_all (fun e -> List.length e.econtent <= 200) a then
-      Printf.printf "V %s %d\n" id (int_of_z (digest outs))
+      Printf.printf "V %s %d\n" id (int_of_z (adigest outs))
   | _ -> failwith "bad arc line"
 
 let () = Registry.register_line "arc" run_arc
